@@ -38,8 +38,8 @@ CHECK_DEADLOCK FALSE
 OUTSIDE_PROPERTY: set = set()
 
 TIERS = {
-    "quick": dict(maxpath=4, nrandom=2, variants=1, full_size=300, sample=4, lens=[2, 3], strlens=[2, 8]),
-    "thorough": dict(maxpath=5, nrandom=8, variants=2, full_size=10 ** 9, sample=0, lens=[2, 3, 5], strlens=[2, 8, 32]),
+    "quick": dict(maxpath=4, nrandom=2, variants=1, full_size=300, mid_size=300, sample=4, lens=[2, 3], strlens=[2, 8]),
+    "thorough": dict(maxpath=5, nrandom=6, variants=2, full_size=300, mid_size=1500, sample=40, lens=[2, 3, 5], strlens=[2, 8, 32]),
 }
 
 
@@ -249,7 +249,8 @@ def run(tier: str, seed: int) -> Dict[str, Any]:
     _TRIE = codecdrv.Trie(ext_paths)
     rnd = random.Random(seed)
     segs = codecdrv.segments(ext_paths)
-    _ADJ = {"full": _TRIE.full()}
+    _ADJ = {"full": _TRIE.full(),
+            "mid": _TRIE.sub(sorted({codecdrv.extend(p[:4]) for p in raw_paths}))}    # every path of (at most) 4 conversions
     pairs = sorted(bypair)
 
     _collect(par, seed)
@@ -259,12 +260,15 @@ def run(tier: str, seed: int) -> Dict[str, Any]:
         import ctypes
         ks = codecdrv.kinds_in(cls)
         size = ctypes.sizeof(cls)
-        full = src["type"] in ("probe", "random", "header") or size <= par["full_size"]
+        full = src["type"] in ("probe", "header") or size <= par["full_size"]
         mine = [(k, t) for (k, t) in pairs if k in ks] or [("-", "DEFAULT")]
+        generated = src["type"] in ("probe", "random")
         for (k, t) in mine:
-            for v in range(par["variants"]):
+            for v in range(par["variants"] if generated else 1):
                 if full:
                     name = "full"
+                elif size <= par["mid_size"]:
+                    name = "mid"
                 else:
                     # large shipped classes in the quick tier: every object-to-object segment + a seeded sample of whole paths
                     name = f"s{nsample}"
@@ -355,15 +359,16 @@ def run(tier: str, seed: int) -> Dict[str, Any]:
         "classes": ncls, "classes_by_source": _by_source(), "class_value_objects_built": nrun,
         "conversions_executed": sum(c for sd in agg.values() for s, c in sd.items() if s != "skipped"),
         "failing_signatures": seen, "mutants": {"copy_shares_storage": res["shares"]["violation"], "accepts_different_version": res["accepts"]["violation"]},
-        "parameters": {k: par[k] for k in ("maxpath", "nrandom", "variants", "full_size", "sample")},
+        "parameters": {k: par[k] for k in ("maxpath", "nrandom", "variants", "full_size", "mid_size", "sample")},
         "samples": [{"pair": list(pairs[0]), "path": [list(e) for e in ext_paths[0]]},
                     {"pair": list(pairs[-1]), "path": [list(e) for e in ext_paths[-1]]},
                     {"class": _CLASSES[0][1].__name__, "source": _CLASSES[0][0]["type"]},
                     {"class": _CLASSES[-1][1].__name__, "source": _CLASSES[-1][0]["type"]}],
-        "exhaustive": tier != "quick",
+        "exhaustive": False,
         "explanation": "Codec.tla model checked (ValuePreserved, VersionRefused; defective variants violate them); every exported "
-                       "conversion path x (kind, value class) executed on every class that has a field of the kind (quick tier: "
-                       "classes larger than full_size bytes get every object-to-object segment plus a seeded sample of whole paths); "
+                       "conversion path x (kind, value class) executed on every class that has a field of the kind (generated classes and "
+                       "shipped classes up to full_size bytes: every path; up to mid_size: every path of <= 4 conversions; larger: every "
+                       "object-to-object segment plus a seeded sample of whole paths); "
                        "bytes compared at every object state; per-path observations judged by TLC (Codec_Trace). Numeric fidelity "
                        "is byte comparison in Python; TLC contributes the path/value enumeration, the copy rule and the refusal rule",
     }
